@@ -144,8 +144,65 @@ class _MatchToIf(ast.NodeTransformer):
         return [ast.fix_missing_locations(ast.copy_location(x, node)) for x in out]
 
 
+class _StructCalls(ast.NodeTransformer):
+    """``_F = struct.Struct('>f')`` at module level and ``_F.unpack(data)`` / ``_F.unpack_from(buf, off)`` /
+    ``_F.pack(v)`` / ``_F.size``: the precompiled form of ``struct.unpack('>f', data)`` ... - rewritten into it."""
+
+    def __init__(self, formats: Dict[str, str]):
+        self.formats = formats
+        self.count = 0
+
+    def visit_Call(self, node: ast.Call):
+        self.generic_visit(node)
+        f = node.func
+        if isinstance(f, ast.Attribute) and isinstance(f.value, ast.Name) and f.value.id in self.formats \
+                and f.attr in ("unpack", "unpack_from", "pack", "pack_into", "iter_unpack"):
+            self.count += 1
+            new = ast.Call(func=ast.Attribute(value=ast.Name(id="struct", ctx=ast.Load()), attr=f.attr, ctx=ast.Load()),
+                           args=[ast.Constant(value=self.formats[f.value.id])] + list(node.args), keywords=list(node.keywords))
+            return ast.copy_location(new, node)
+        return node
+
+    def visit_Attribute(self, node: ast.Attribute):
+        self.generic_visit(node)
+        if isinstance(node.value, ast.Name) and node.value.id in self.formats and node.attr == "size" and isinstance(node.ctx, ast.Load):
+            import struct as _struct
+            try:
+                return ast.copy_location(ast.Constant(value=_struct.calcsize(self.formats[node.value.id])), node)
+            except _struct.error:
+                return node
+        return node
+
+
+def _struct_formats(tree: ast.Module) -> Dict[str, str]:
+    out: Dict[str, str] = {}
+    stores: Dict[str, int] = {}
+    for n in ast.walk(tree):
+        if isinstance(n, ast.Name) and isinstance(n.ctx, ast.Store):
+            stores[n.id] = stores.get(n.id, 0) + 1
+    for st in tree.body:
+        tgt = val = None
+        if isinstance(st, ast.Assign) and len(st.targets) == 1 and isinstance(st.targets[0], ast.Name):
+            tgt, val = st.targets[0].id, st.value
+        elif isinstance(st, ast.AnnAssign) and isinstance(st.target, ast.Name) and st.value is not None:
+            tgt, val = st.target.id, st.value
+        if tgt and stores.get(tgt) == 1 and isinstance(val, ast.Call) and len(val.args) == 1 and not val.keywords \
+                and isinstance(val.args[0], ast.Constant) and isinstance(val.args[0].value, str) \
+                and ((isinstance(val.func, ast.Name) and val.func.id == "Struct")
+                     or (isinstance(val.func, ast.Attribute) and val.func.attr == "Struct" and isinstance(val.func.value, ast.Name) and val.func.value.id == "struct")):
+            out[tgt] = val.args[0].value
+    return out
+
+
 def desugar(trees: Dict[str, ast.Module]) -> int:
     n = 0
+    for name, tree in trees.items():
+        fmts = _struct_formats(tree)
+        if fmts:
+            sc = _StructCalls(fmts)
+            sc.visit(tree)
+            ast.fix_missing_locations(tree)
+            n += sc.count
     if hasattr(ast, "Match"):
         for name, tree in trees.items():
             if any(isinstance(x, ast.Match) for x in ast.walk(tree)):
